@@ -21,8 +21,8 @@ def calls(path, suffix=None, name=None, depth0=True):
     for e in path.events:
         if e.kind != "call":
             continue
-        if depth0 and e.depth != 0:
-            continue
+        if depth0 and e.depth != 0 and not (path.events and "::{closure" in e.fn and e.fn.split("::{closure")[0] == path.events[0].fn.split("::{closure")[0]):
+            continue        # (statements of the function's own closures count as its own)
         if name is not None and e.name != name:
             continue
         if suffix is not None and not e.name.endswith(suffix):
